@@ -649,7 +649,8 @@ class C05(vlib.Spec):
     theorems = ["Banyan.C05." + t for t in [
         "inv_init", "inv_step", "inv_reachable", "part_ref_eq_listing_snapshots", "snap_ref_eq_current_plus_holders",
         "refs_nonneg", "deleted_imp_unreferenced_removable", "listed_not_deleted", "applyLoop_eq_applyAll",
-        "reader_view_stable", "reader_view_stable_reachable", "batchInv_reachable", "view_nodup", "curView_step",
+        "reader_view_stable", "reader_view_stable_reachable", "query_reads_pinned_list", "query_unaffected_by_prepare",
+        "flag_reading_query_counterexample", "batchInv_reachable", "view_nodup", "curView_step",
         "delete_exactly_once_after_last_reader", "delCount_mono", "delete_at_most_once_ever",
         "txn_commit_idempotent", "txn_rollback_idempotent", "txn_commit_after_rollback_noop",
         "txn_acct_newTransition", "txn_commit_applies_all", "txn_balanced_after_release", "txn_rollback_applies_none",
@@ -679,7 +680,8 @@ class C05(vlib.Spec):
         "measure tsTable is driven directly; stream and trace tables are tied by textual identity of their "
         "snapshot/partWrapper code with measure's (extractor), sidx by reading",
         "the flusher's pinned snapshot equals the current one when its introduction is applied (single-threaded driver)",
-        "trace publication fence: model + theorem only (no trace driver)",
+        "trace publication fence: model + theorem + source-shape tie only (no trace driver)",
+        "real sidx (sx) and real stream table (ss) cases are checked by the oracle only; the Lean model abstains",
     ]
     rule = ("random op sequences (2-40 ops + tail): batch / acquire k / release k (k<6) / flush-all / flush subset / "
             "merge of a random same-kind (sometimes mixed, sometimes unknown-id) subset / sync-remove / close (holders "
